@@ -12,6 +12,11 @@
 #include "K_get_bin_for_det_pos_pair.c"
 #include "K_get_det_pair_for_bin.c"
 #include "K_get_det_pos_pair_for_bin.c"
+#include "K_get_num_axial_poss_per_ring_inc.c"
+#include "K_get_segment_num_for_ring_difference.c"
+#include "K_get_segment_axial_pos_num_for_ring_pair.c"
+#include "K_compute_segment_axial_pos_to_ring_pair.c"
+#include "K_get_ring_pair_for_segment_axial_pos_num.c"
 
 static void ghosts1(void)
 {
@@ -132,6 +137,55 @@ void h_lemma_roundtrip(void)
   __CPROVER_assert(b2.view_num == b.view_num && b2.tangential_pos_num == b.tangential_pos_num, "round trip: view and tangential position");
   __CPROVER_assert(b2.timing_pos_num == b.timing_pos_num, "round trip: TOF index (sign carried by the order of the pair)");
   __CPROVER_assert(g_rp_r1 == r1 && g_rp_r2 == r2, "round trip: the bin's own ring pair, in its own order, is mapped back to (segment, axial position)");
+#ifdef LEMMA_CANARY
+  __CPROVER_assert(0, "vacuity canary");
+#endif
+}
+
+/* ---------- ring pairs ---------- */
+static void ghosts_ring(void) { g_error = 0; g_s = nondet_int(); g_s2 = nondet_int(); g_r1 = nondet_int(); g_r2 = nondet_int(); g_rp_count_ghost = 0; g_rp_pushed = 0; g_rp_reserved = 0; }
+void h_K_get_num_axial_poss_per_ring_inc(void) { struct PDI2* s; ghosts_ring(); K_get_num_axial_poss_per_ring_inc(s, nondet_int()); }
+void h_K_get_segment_num_for_ring_difference(void) { struct PDI2* s; int* p; ghosts_ring(); K_get_segment_num_for_ring_difference(s, p, nondet_int()); }
+void h_K_get_segment_axial_pos_num_for_ring_pair(void) { struct PDI2* s; int *p, *q; ghosts_ring(); K_get_segment_axial_pos_num_for_ring_pair(s, p, q, nondet_int(), nondet_int()); }
+void h_K_compute_segment_axial_pos_to_ring_pair(void) { struct PDI2* s; ghosts_ring(); K_compute_segment_axial_pos_to_ring_pair(s, nondet_int(), nondet_int()); }
+void h_K_get_ring_pair_for_segment_axial_pos_num(void) { struct PDI2* s; int *p, *q; ghosts_ring(); K_get_ring_pair_for_segment_axial_pos_num(s, p, q, nondet_int(), nondet_int()); }
+
+static void mk_pdi2(struct PDI2* p)
+{
+  p->min_seg = nondet_int(); p->max_seg = nondet_int(); p->num_rings = nondet_int();
+  p->sampling_corresponds_to_physical_rings = 1; p->ring_diff_arrays_computed = 1;
+  for (int i = 0; i < MAXSEGS; ++i) { p->min_ring_diff[i] = nondet_int(); p->max_ring_diff[i] = nondet_int(); p->ax_pos_num_offset[i] = nondet_int(); }
+}
+/* Lemma (over the contracts of get_segment_axial_pos_num_for_ring_pair and compute_segment_axial_pos_to_ring_pair):
+   a ring pair whose ring difference is covered lies in the list of the (segment, axial position) it is mapped to, and in
+   the list of no other (segment', axial position'). */
+void h_lemma_ring_partition(void)
+{
+  struct PDI2 p; mk_pdi2(&p); ghosts_ring();
+  int r1 = nondet_int(), r2 = nondet_int(), seg, ax;
+  __CPROVER_assume(PDI2_VALID(&p) && RING_OK(&p, r1) && RING_OK(&p, r2));
+  __CPROVER_assume(SEG_OK(&p, g_s) && RD_IN(&p, g_s, r2 - r1) && PARITY_OK(&p, g_s)); /* the ring difference is covered (by segment g_s) */
+  int ok = K_get_segment_axial_pos_num_for_ring_pair(&p, &seg, &ax, r1, r2);
+  __CPROVER_assert(!g_error && ok == 1 && seg == g_s, "a covered ring pair is assigned to the segment covering its ring difference");
+  /* membership in a list is PAIR_BELONGS (postcondition of compute_segment_axial_pos_to_ring_pair, ghost pair = (r1,r2)) */
+  __CPROVER_assert(PAIR_BELONGS(&p, seg, ax, r1, r2), "the pair is in the list of its own (segment, axial position)");
+  int seg2 = g_s2, ax2 = nondet_int();
+  __CPROVER_assume(SEG_OK(&p, seg2) && ax2 > -10000 && ax2 < 10000 && ax > -10000 && ax < 10000);
+  __CPROVER_assert(!PAIR_BELONGS(&p, seg2, ax2, r1, r2) || (seg2 == seg && ax2 == ax), "and in the list of no other (segment, axial position)");
+#ifdef LEMMA_CANARY
+  __CPROVER_assert(0, "vacuity canary");
+#endif
+}
+/* span-1 segments: (segment, axial position) -> ring pair -> (segment, axial position) is the identity */
+void h_lemma_ring_inverse(void)
+{
+  struct PDI2 p; mk_pdi2(&p); ghosts_ring();
+  int seg = g_s, ax = nondet_int(), r1, r2, seg2, ax2;
+  __CPROVER_assume(PDI2_VALID(&p) && SEG_OK(&p, seg) && PARITY_OK(&p, seg) && ax > -10000 && ax < 10000);
+  K_get_ring_pair_for_segment_axial_pos_num(&p, &r1, &r2, seg, ax);
+  __CPROVER_assume(!g_error && RING_OK(&p, r1) && RING_OK(&p, r2)); /* the axial position exists in the scanner */
+  int ok = K_get_segment_axial_pos_num_for_ring_pair(&p, &seg2, &ax2, r1, r2);
+  __CPROVER_assert(!g_error && ok == 1 && seg2 == seg && ax2 == ax, "ring pair of a (segment, axial position) maps back to it");
 #ifdef LEMMA_CANARY
   __CPROVER_assert(0, "vacuity canary");
 #endif
